@@ -5,7 +5,7 @@ import * as X from '../expr.mjs'
 import * as M from '../tmodel.mjs'
 import { genFileSet, makeData, printFileSet, DATA_NAMES } from '../gen.mjs'
 import { compileMany, instantiate, allDiags, snap, LEVEL, withWarnings } from '../kit.mjs'
-import { diffSnap, showSnap, evalGroups } from '../rt.mjs'
+import { diffSnap, showSnap, evalGroups, DYN_SLOT_CHILD_SRC } from '../rt.mjs'
 import { Rng } from '../prng.mjs'
 import { genOp, applyOp, driveOp, showOp, pathTree } from '../mut.mjs'
 
@@ -17,8 +17,8 @@ export const assumptions = [
 
 const FIELDS = [...DATA_NAMES, 'list', 'arr', 'obj', 'ob', 'flag', 'n', 's']
 
-function freshTree(ge, G, main, D, extra, propComponents) {
-  const { comp, tr, error } = instantiate(ge, G, main, D, { keepEvents: false, templateExtra: extra, propComponents })
+function freshTree(ge, G, main, D, extra, propComponents, dynSlotChild) {
+  const { comp, tr, error } = instantiate(ge, G, main, D, { keepEvents: false, templateExtra: extra, propComponents, dynSlotChild })
   if (error) return { error }
   return { tree: snap(ge, comp, tr, {}) }
 }
@@ -49,10 +49,11 @@ export function runHistory(ctx, c, res) {
   const dataSeed = c.dataSeed
   const mk = () => makeData(new Rng(dataSeed), { small: true })
   const pc = (c.caseSeed & 1) === 1 // `<x-a>` is a real child component in every second case
-  const live = instantiate(ge, G, c.fs.main, mk(), { keepEvents: false, templateExtra: extra, propComponents: pc })
+  const dsc = ctx.dynSlotChild
+  const live = instantiate(ge, G, c.fs.main, mk(), { keepEvents: false, templateExtra: extra, propComponents: pc, dynSlotChild: dsc })
   if (live.error) { report.count('creation_throws'); return }
   const shadow = mk() // pure copy on which the ops are applied to know D_i
-  const first = freshTree(ge, G, c.fs.main, mk(), extra, pc)
+  const first = freshTree(ge, G, c.fs.main, mk(), extra, pc, dsc)
   if (first.error) { report.count('creation_throws'); return }
   let prevTree = first.tree
   let changedOnce = false
@@ -77,7 +78,7 @@ export function runHistory(ctx, c, res) {
     // fresh creation with D_i (a structurally equal, unshared copy: re-apply the ops on a new base)
     const base = mk()
     for (let k = 0; k <= i; k++) applyOp(base, c.ops[k])
-    const fresh = freshTree(ge, G, c.fs.main, base, extra, pc)
+    const fresh = freshTree(ge, G, c.fs.main, base, extra, pc, dsc)
     report.evals()
     if (fresh.error) { report.count('fresh_creation_throws'); return }
     const got = snap(ge, live.comp, live.tr, {})
@@ -144,6 +145,15 @@ function focusNodes(r, fs_) {
       out.push({ t: 'for', list: M.ev(r.pick(side)()), item: undefined, index: undefined, key: r.pick([undefined, undefined, 'k', 'id']), cond: r.bool(0.2) ? M.ev(X.bin('||', it('v'), X.id('flag'))) : null, node })
     } else if (kind < 8) {
       out.push({ t: 'if', branches: [{ cond: M.ev(X.bin('&&', X.id('obj'), X.mem(X.mem(X.id('obj'), 'items'), 'length'))), node: { t: 'el', tag: 'q', attrs: [{ fam: 'plain', name: 'v', value: M.ev(X.mem(X.idx(items, X.num('0')), 'v')) }], children: [] } }], els: { t: 'el', tag: 'q', attrs: [{ fam: 'plain', name: 'w', value: M.ev(X.mem(X.id('obj'), 'y')) }], children: [] } })
+    } else if (kind < 9) {
+      // content of a dynamic-slots child: a wx:if chain (or a template reference) directly below the component tag,
+      // next to an element that receives the slot values; the child renders the content once per list item
+      const kids = []
+      if (r.bool(0.7)) kids.push({ t: 'if', branches: [{ cond: M.ev(X.id(r.pick(['flag', 'a', 'n']))), node: { t: 'block', children: [{ t: 'el', tag: 'q', attrs: [], children: [{ t: 'text', v: M.mv('yes', X.id('a')) }] }] } }], els: r.bool(0.4) ? { t: 'block', children: [{ t: 'el', tag: 'q', attrs: [], children: [{ t: 'text', v: M.mv('no', X.id('s')) }] }] } : null })
+      kids.push({ t: 'el', tag: 'q', attrs: [{ fam: 'plain', name: 'w', value: M.ev(X.id('v')) }], slotVals: r.bool(0.7) ? [{ name: 'v' }, { name: 'i' }] : [], children: [{ t: 'text', v: M.mv('', X.id('v'), '-', X.id('i'), '-', X.id(r.pick(['a', 's', 'flag']))) }] })
+      const defs = (fs_.files[fs_.main].defs || []).map((d) => d.name)
+      if (defs.length && r.bool(0.3)) kids.push({ t: 'tref', is: M.sv(r.pick(defs)), data: X.obj([{ k: 'kv', name: 'a', e: X.id('a') }]) })
+      out.push({ t: 'el', tag: 'd-s', attrs: [{ fam: 'plain', name: 'list', value: M.ev(r.pick([() => X.id('list'), () => items, () => X.bin('||', items, X.id('list'))])()) }], children: r.shuffle(kids) })
     } else {
       const defs = (fs_.files[fs_.main].defs || []).map((d) => d.name)
       if (defs.length) out.push({ t: 'tref', is: M.sv(r.pick(defs)), data: X.obj([{ k: 'kv', name: 'a', e: X.bin('&&', X.id('obj'), X.mem(X.id('obj'), 'y')) }, { k: 'kv', name: 'b', e: X.idx(items, X.num('0')) }, { k: 'spread', e: X.bin('||', X.id('ob'), X.obj([])) }]) })
@@ -176,7 +186,9 @@ export function makeCases(ctx, n, fixed = null) {
     for (let i = 0; i < nOps; i++) { const o = genOp(r, D, FIELDS, undefined, prefer); ops.push(o); applyOp(D, o) }
     const mode = r.bool(0.5) ? 'virtualTree' : 'default'
     // a key can only be removed with an exact tree when the tree is handed over directly
-    const synthetic = ops.some((o) => o.op === 'key') ? r.pick(['exact', 'exact', 'coarse', null]) : r.bool(0.25) ? r.pick(['exact', 'coarse', 'true']) : null
+    // (dynamic-slot content is created and removed by the child's own update cycle: only real setData histories there)
+    const hasDynSlots = focus && fs_.files[fs_.main].children.some((n) => n.t === 'el' && n.tag === 'd-s')
+    const synthetic = hasDynSlots ? null : ops.some((o) => o.op === 'key') ? r.pick(['exact', 'exact', 'coarse', null]) : r.bool(0.25) ? r.pick(['exact', 'coarse', 'true']) : null
     cases.push({ id: cases.length, caseSeed, genOpts, fs: fs_, sources, dataSeed, ops, mode, synthetic })
   }
   return cases
@@ -201,8 +213,15 @@ function runFindingWitnesses(ctx) {
   else report.violation('the witness of finding lvalue-path-stale-after-index-shift now fails differently: ' + d, { files: [['p', src]], diff: d })
 }
 
+function compileDynSlotChild(ctx) {
+  const res = compileMany([{ id: 'child', files: [['child', DYN_SLOT_CHILD_SRC]], scripts: [] }]).get('child')
+  ctx.dynSlotChild = evalGroups(res.groups)
+}
+
 export async function run(ctx) {
+  X.sameOptions.signedZero = false // an updated instance is compared with a fresh one: the runtime's change detection is `!==`
   const { report, tier } = ctx
+  compileDynSlotChild(ctx)
   if (ctx.shard === 0) runFindingWitnesses(ctx)
   const N = tier === 'thorough' ? 12000 : 1000
   const cases = makeCases(ctx, N)
@@ -222,6 +241,8 @@ export async function run(ctx) {
 }
 
 export async function replay(ctx) {
+  X.sameOptions.signedZero = false
+  compileDynSlotChild(ctx)
   const w = ctx.replay.witness
   const cases = makeCases(ctx, 1, [w.caseSeed])
   for (const c of cases) {
